@@ -450,6 +450,7 @@ func (s *Session) RunCheck(ps *PropSpec, opts CheckOpts) int {
 		"scope":               ps.Scope,
 		"out_of_scope_query_instances": outOfScope,
 		"pinned_clauses":      len(ps.Pinned),
+		"slow_obligations":    slowList(sums, float64(s.TimeoutS)*0.4),
 		"discharged_only_under_known_finding_exclusion": nKnown,
 		"sweep_packages":      ps.Sweep,
 		"sweep_not_covered":   ps.SweepExclude,
@@ -543,6 +544,15 @@ func (s *Session) RunCheck(ps *PropSpec, opts CheckOpts) int {
 	fmt.Printf("%s %s: %d obligations (%d query instances), %d discharged, %d functions, %.1fs\n", ps.ID, opts.Tier, nObl, nInst, nDis, len(results), time.Since(start).Seconds())
 	for _, l := range knownLines {
 		fmt.Println(l)
+	}
+	var slow []string
+	for _, sm := range sums {
+		if sm.MaxTime > float64(s.TimeoutS)*0.4 {
+			slow = append(slow, fmt.Sprintf("%s (%.1fs)", shortObl(sm.Name), sm.MaxTime))
+		}
+	}
+	if len(slow) > 0 {
+		fmt.Printf("note: %d obligation(s) needed more than 40%% of the per-query time limit: %s\n", len(slow), strings.Join(slow, ", "))
 	}
 	for _, p := range engineProblems {
 		fmt.Println("ENGINE-PROBLEM:", p)
@@ -686,4 +696,14 @@ func LoadPropSpecs(path string) (map[string]*PropSpec, error) {
 		out[p.ID] = p
 	}
 	return out, nil
+}
+
+func slowList(sums []*OblSummary, limit float64) []string {
+	out := []string{}
+	for _, sm := range sums {
+		if sm.MaxTime > limit {
+			out = append(out, fmt.Sprintf("%s (%.1fs)", shortObl(sm.Name), sm.MaxTime))
+		}
+	}
+	return out
 }
